@@ -111,3 +111,113 @@ def frameAccounted (evs : List Ev) : Bool :=
     | _ => false
 
 end MqttVerif.Mon
+
+namespace MqttVerif.Mon
+open MqttVerif.Conn
+
+/-! ## session / connection starts as seen from the events of a call -/
+
+def findProp (p : Pkt) (id : Nat) : Option Nat := (p.props.find? (·.1 = id)).map (·.2)
+
+/-- the call started a new *session* (the only case in which identifiers and the store may
+    change without an announcement): CONNECT with clean start sent or delivered, or a CONNACK
+    delivered with success and session not present / Session Expiry Interval 0 -/
+def startsNewSession (evs : List Ev) : Bool :=
+  evs.any fun e => match e with
+    | .send p _ => p.kind = .connect ∧ p.clean
+    | .recv p => (p.kind = .connect ∧ p.clean) ∨
+                 (p.kind = .connack ∧ p.rc = some 0 ∧ (!p.sp ∨ findProp p pSEI = some 0))
+    | _ => false
+
+/-- a CONNECT was sent or delivered, or a successful CONNACK delivered: a new *connection* -/
+def connectionStart (evs : List Ev) : Option Pkt :=
+  evs.findSome? fun e => match e with
+    | .send p _ => if p.kind = .connect then some p else none
+    | .recv p => if p.kind = .connect ∨ (p.kind = .connack ∧ p.rc = some 0) then some p else none
+    | _ => none
+
+def hasError (evs : List Ev) : Bool := evs.any fun e => match e with | .error _ => true | _ => false
+def hasErrorCode (evs : List Ev) (c : Nat) : Bool := evs.any (· = .error c)
+
+/-! ## C12 — ghost account of incomplete exchanges, from observations only -/
+
+structure Credit where
+  out : List Nat := []          -- ids of outbound QoS>0 exchanges (re)started on this connection
+  peerMax : Option Nat := none  -- Receive Maximum announced by the peer (delivered CONNECT/CONNACK)
+  inn : List Nat := []          -- ids of inbound QoS>0 PUBLISH not yet answered
+  ownMax : Option Nat := none   -- Receive Maximum we announced (sent CONNECT / successful CONNACK)
+deriving Repr, Inhabited
+
+/-- update the outbound account with the events of one call, in order -/
+def creditOutStep : List Nat → List Ev → List Nat
+  | out, [] => out
+  | out, .send p _ :: rest =>
+    match p.pid with
+    | some id =>
+      if (p.kind = .publish ∧ p.qos > 0) ∨ p.kind = .pubrel then creditOutStep (ins id out) rest
+      else creditOutStep out rest
+    | none => creditOutStep out rest
+  | out, .recv p :: rest =>
+    match p.pid with
+    | some id =>
+      if p.kind = .puback ∨ p.kind = .pubcomp then creditOutStep (del id out) rest
+      else if p.kind = .pubrec ∧ p.ver = 5 ∧ p.rc ≠ none ∧ p.rc ≠ some 0 then creditOutStep (del id out) rest
+      else creditOutStep out rest
+    | none => creditOutStep out rest
+  | out, .released id :: rest => creditOutStep (del id out) rest
+  | out, _ :: rest => creditOutStep out rest
+
+/-- inbound account: our answers complete an exchange -/
+def creditInAnswered : List Nat → List Ev → List Nat
+  | inn, [] => inn
+  | inn, .send p _ :: rest =>
+    match p.pid with
+    | some id =>
+      if p.kind = .puback ∨ p.kind = .pubcomp then creditInAnswered (del id inn) rest
+      else if decide (p.kind = .pubrec) && (match p.rc with | some rc => decide (rc ≥ 0x80) | none => false) then
+        creditInAnswered (del id inn) rest
+      else creditInAnswered inn rest
+    | none => creditInAnswered inn rest
+  | inn, _ :: rest => creditInAnswered inn rest
+
+/-! ## C15 — PINGREQ interval priority, from observations only -/
+
+structure Interval where
+  user : Option Nat := none      -- application override (ms), from `set_pingreq_send_interval`
+  server : Option Nat := none    -- Server Keep Alive of the delivered CONNACK (ms)
+  connect : Nat := 0             -- keep alive of the CONNECT sent (ms)
+  valid : Bool := false          -- the current connection was started by a CONNECT we sent
+deriving Repr, Inhabited
+
+def Interval.expected (i : Interval) : Nat :=
+  match i.user with
+  | some t => t
+  | none => match i.server with
+    | some t => t
+    | none => i.connect
+
+/-- the last PINGREQ-send timer event of a call -/
+def lastSendTimer : List Ev → Option Ev
+  | [] => none
+  | e :: rest =>
+    match lastSendTimer rest with
+    | some x => some x
+    | none => match e with
+      | .timerReset .pingreqSend _ => some e
+      | .timerCancel .pingreqSend => some e
+      | _ => none
+
+/-! ## C06 — helpers on the stored ids (in store order) -/
+
+/-- relative order of the ids common to both lists is the same -/
+def sameRelativeOrder (a b : List Nat) : Bool :=
+  a.filter (b.contains ·) == b.filter (a.contains ·)
+
+def sentExchangeIds : List Ev → List Nat
+  | [] => []
+  | .send p _ :: rest =>
+    if (p.kind = .publish ∧ p.qos > 0) ∨ p.kind = .pubrel then (p.pid.getD 0) :: sentExchangeIds rest
+    else sentExchangeIds rest
+  | _ :: rest => sentExchangeIds rest
+
+end MqttVerif.Mon
